@@ -47,6 +47,7 @@ type sworld struct {
 	markAt  map[uint64]int64 // gid -> virtual time of the mark
 	markDur map[uint64]int64
 	endOf   map[uint64]int64 // gid -> end (virtual)
+	igEnd   map[uint64]int64 // index group id -> end (virtual)
 	gidOf   map[uint64]uint64
 }
 
@@ -126,11 +127,15 @@ func runS(c *hx.Ctx, r *hx.Rng, n int) error {
 func playS(r *hx.Rng) (out []emitted, err error) {
 	G := []int64{hour, 24 * hour, 168 * hour}[r.Intn(3)]
 	ds := []int64{G, 2 * G, 3*G + hour, 30 * 24 * hour}
+	if r.Chance(15) {
+		// durations near the time.Duration maximum: duration + RetentionDelayedTime does not fit an int64
+		ds = append(ds, 106751*day, 99999*day, maxDurNs)
+	}
 	d0 := ds[r.Intn(len(ds))]
 	if r.Chance(10) {
 		d0 = 0
 	}
-	w := &sworld{markAt: map[uint64]int64{}, markDur: map[uint64]int64{}, endOf: map[uint64]int64{}, gidOf: map[uint64]uint64{}}
+	w := &sworld{igEnd: map[uint64]int64{}, markAt: map[uint64]int64{}, markDur: map[uint64]int64{}, endOf: map[uint64]int64{}, gidOf: map[uint64]uint64{}}
 	w.rpi = &meta.RetentionPolicyInfo{Name: rpName, Duration: time.Duration(d0), ReplicaN: 1, ShardGroupDuration: time.Duration(G), IndexGroupDuration: time.Duration(4 * G)}
 	w.data = &meta.Data{Databases: map[string]*meta.DatabaseInfo{dbName: {Name: dbName, DefaultRetentionPolicy: rpName, Options: &obs.ObsOptions{},
 		RetentionPolicies: map[string]*meta.RetentionPolicyInfo{rpName: w.rpi}}},
@@ -176,6 +181,7 @@ func playS(r *hx.Rng) (out []emitted, err error) {
 			Indexes: []meta.IndexInfo{{ID: uint64(100 + 10*i), Owners: []uint32{0}}, {ID: uint64(101 + 10*i), Owners: []uint32{1}}}}
 		w.rpi.IndexGroups = append(w.rpi.IndexGroups, ig)
 		igEnds = append(igEnds, e)
+		w.igEnd[ig.ID] = e
 		igTxt = append(igTxt, fmt.Sprintf("%d:%d:%d+%d", ig.ID, e, 100+10*i, 101+10*i))
 	}
 	newLine := fmt.Sprintf("s new %d %s %s", d0, strings.Join(sgTxt, ";"), strings.Join(igTxt, ";"))
@@ -189,12 +195,12 @@ func playS(r *hx.Rng) (out []emitted, err error) {
 				continue
 			}
 			for _, e := range ends {
-				if abs(e+d-now) < margin {
+				if abs(addSat(addSat(e, d), -now)) < margin {
 					return false
 				}
 			}
 			for _, e := range igEnds {
-				if abs(e+d+graceNs-now) < margin {
+				if abs(addSat(addSat(addSat(e, d), graceNs), -now)) < margin {
 					return false
 				}
 			}
@@ -279,7 +285,7 @@ func playS(r *hx.Rng) (out []emitted, err error) {
 						panic(err)
 					}
 					w.markAt[m.ShardGroupId], w.markDur[m.ShardGroupId] = w.vnow, dNow
-					if !(dNow != 0 && w.endOf[m.ShardGroupId]+dNow < w.vnow) {
+					if !(dNow != 0 && addSat(w.endOf[m.ShardGroupId], dNow) < w.vnow) {
 						viol = append(viol, [2]string{"shared-marked-unexpired", fmt.Sprintf("group %d (end %+d, clock %d) marked deleted under policy duration %d ;; history: %s ;; s check", m.ShardGroupId, w.endOf[m.ShardGroupId], w.vnow, dNow, hist)})
 					}
 				}
@@ -295,7 +301,7 @@ func playS(r *hx.Rng) (out []emitted, err error) {
 						if !ok || ma+graceNs > w.vnow {
 							viol = append(viol, [2]string{"shared-removed-inside-grace", fmt.Sprintf("shard %d of group %d removed at clock %d, group marked at %d (known %v) ;; history: %s ;; s check", sid, g.ShardGroupId, w.vnow, ma, ok, hist)})
 						}
-						if !(dNow != 0 && w.endOf[g.ShardGroupId]+dNow < w.vnow) {
+						if !(dNow != 0 && addSat(w.endOf[g.ShardGroupId], dNow) < w.vnow) {
 							viol = append(viol, [2]string{"shared-alter-in-grace-not-cancelled", fmt.Sprintf("shard %d of group %d (end %+d, clock %d) removed although the policy duration is now %d (marked under %d) ;; history: %s ;; s check", sid, g.ShardGroupId, w.endOf[g.ShardGroupId], w.vnow, dNow, w.markDur[g.ShardGroupId], hist)})
 						}
 					}
@@ -307,6 +313,9 @@ func playS(r *hx.Rng) (out []emitted, err error) {
 				sort.Slice(exI, func(i, j int) bool { return exI[i].IndexGroupID < exI[j].IndexGroupID })
 				for _, g := range exI {
 					ix = append(ix, g.IndexGroupID)
+					if ie, ok := w.igEnd[g.IndexGroupID]; ok && !(dNow != 0 && addSat(addSat(ie, dNow), graceNs) <= w.vnow) {
+						viol = append(viol, [2]string{"shared-index-removed-early", fmt.Sprintf("index group %d (end %+d, clock %d) removed under policy duration %d: end + duration + 24h has not passed ;; history: %s ;; s check", g.IndexGroupID, ie, w.vnow, dNow, hist)})
+					}
 					if err := w.data.DeleteIndexGroup(g.Database, g.Policy, g.IndexGroupID); err != nil {
 						panic(err)
 					}
